@@ -74,6 +74,7 @@ type obs struct {
 	mu          sync.Mutex
 	cond        *sync.Cond
 	deliveries  []rparams.Delivery
+	kept        []*remote.TestMessage // the delivered message objects, in the order of deliveries: they belong to the receiver and must not change afterwards
 	dead        []string
 	unreachable int
 }
@@ -200,6 +201,7 @@ func runVariant(p rparams.Params) out {
 				}
 				o.mu.Lock()
 				o.deliveries = append(o.deliveries, rparams.Delivery{Actor: name, ID: id, Sender: norm(c.Sender())})
+				o.kept = append(o.kept, m)
 				o.cond.Broadcast()
 				o.mu.Unlock()
 			}, "t", actor.WithID(fmt.Sprint(i)))
@@ -358,6 +360,12 @@ func runVariant(p rparams.Params) out {
 		}
 	}
 	o.mu.Lock()
+	for i, m := range o.kept {
+		if now := string(m.Data); now != o.deliveries[i].ID {
+			defer o.mu.Unlock()
+			return out{Kind: "record", Variant: p.String(), Detail: fmt.Sprintf("message %q delivered to %s reads %q now: a delivered message was overwritten by a later one", o.deliveries[i].ID, o.deliveries[i].Actor, now)}
+		}
+	}
 	rec := rparams.Record(p, o.deliveries, o.dead, o.unreachable, req)
 	o.mu.Unlock()
 	return out{Kind: "record", Variant: p.String(), Record: rec, OK: true}
@@ -506,6 +514,11 @@ func selfSignedTLS() *tls.Config {
 		tlsCfg = &tls.Config{Certificates: []tls.Certificate{{Certificate: [][]byte{der}, PrivateKey: key}}, InsecureSkipVerify: true}
 	})
 	return tlsCfg
+}
+
+func init() {
+	// as an application that sends its own generated types would
+	remote.RegisterType(&remote.TestMessage{})
 }
 
 func main() {
